@@ -19,6 +19,7 @@ cd $W && git apply "$SEED/patch.diff" || { echo "RESULT $NAME patch-does-not-app
 UT=$(./_b/tests/unit/UnitTests 2>&1 | tail -2 | tr -d '\033' | grep -c "No errors detected")
 mkdir -p $W/_seed && cp -r "$SEED"/* $W/_seed/ 2>/dev/null
 (cd $W/_seed && timeout 600 bash ./demo.sh $W/_b >/dev/null 2>&1); D1=$?
-(cd $W/_seed && timeout 600 bash ./demo.sh $BASE/_b0 >/dev/null 2>&1); D0=$?
+rm -rf $BASE/_seed; mkdir -p $BASE/_seed && cp -r "$SEED"/* $BASE/_seed/
+(cd $BASE/_seed && timeout 600 bash ./demo.sh $BASE/_b0 >/dev/null 2>&1); D0=$?; rm -rf $BASE/_seed
 echo "RESULT $NAME unit_tests_pass=$UT demo_with_change_exit=$D1 demo_without_change_exit=$D0"
 cd /; git -C /repo worktree remove --force $W
